@@ -24,6 +24,7 @@ theorem step_args_length (st : St) (x : Instr) : (step st x).args.length = st.ar
     cases m <;> simp only [step] <;> split <;> simp [noteOob, put_args_length, setSlot_length, noteRam_args]
   | derive a i k d => simp only [step]; split <;> simp [noteOob, put_args_length, noteRam_args]
   | read a i => simp only [step]; split <;> simp [noteOob, noteRam_args]
+  | shift a i => simp only [step]; split <;> simp [noteOob, noteRam_args]
   | steal a d => simp only [step]; split <;> simp [noteOob, put_args_length]
   | pop a i d => simp only [step]; split <;> simp [noteOob, put_args_length, setSlot_length, noteRam_args]
   | swap a i j => simp only [step]; split <;> simp [noteOob, setSlot_length, noteRam_args]
@@ -44,6 +45,7 @@ theorem step_lost_of_keeps (st : St) (x : Instr) (h : x.KeepsValues st.args.leng
     · rfl
     · rw [put_lost_of_keeps _ _ _ (by simpa [noteRam_args] using hd)]; simp
   | read a i => simp only [step]; split <;> simp [noteOob]
+  | shift a i => simp only [step]; split <;> simp [noteOob]
   | steal a d =>
     have hd := h d rfl
     simp only [step]; split
